@@ -264,4 +264,34 @@ class NetModel {
 
   friend class MatrixCreator;
 };
+
+#ifdef COLOQUINTE_VERIF
+#define COLOQUINTE_VERIF_HAS_H2 1
+namespace verif {
+/**
+ * @brief Verification hook H2: the linear system handed to the iterative
+ * solver, as assembled by the (file-local) MatrixCreator
+ *
+ * Entry k of the matrix is (rows[k], cols[k], values[k]), in assembly order
+ * (duplicates are summed by the solver). The first nbCells unknowns are the
+ * cells; the remaining matSize - nbCells are auxiliary star variables.
+ */
+struct AssembledSystem {
+  int nbCells;
+  int matSize;
+  std::vector<int> rows;
+  std::vector<int> cols;
+  std::vector<float> values;
+  std::vector<float> rhs;
+  std::vector<float> initial;
+};
+
+/**
+ * @brief Call-out invoked by MatrixCreator::solve after finalize(), just
+ * before the conjugate gradient solver runs; null (disabled) by default. May be
+ * called concurrently from several threads during global placement.
+ */
+extern void (*onMatrixSolve)(const AssembledSystem &);
+}  // namespace verif
+#endif
 }  // namespace coloquinte
